@@ -98,14 +98,15 @@ theorem century_of_date (d : Int) (hd : 693596 ≤ d ∧ d ≤ 767009) :
   · rw [le_div_iff₀ (by norm_num)]; norm_num; linarith
   · rw [div_le_iff₀ (by norm_num)]; norm_num; linarith
 
-/-- the UTC candidate of noon: exactly 00:00 UTC of the date plus the truncated
-    (720 − 4·lon − eqtime) minutes, which is 12:00 − lon/15 to within 18.7 min + 1 s -/
-theorem noonUtc_value (obs : Obs ℝ) (d : Int) (hd : 693596 ≤ d ∧ d ≤ 767009)
-    (hlon : -180 ≤ obs.lon ∧ obs.lon ≤ 180) :
+/-- the UTC candidate of noon under any bound `B ≤ 30` min on the equation of time: exactly
+    00:00 UTC of the date plus the truncated (720 − 4·lon − eqtime) minutes — no error, no field
+    out of range, for every date 0001-01-02 … 9999-12-30 -/
+theorem noonUtc_of_eot_bound (obs : Obs ℝ) (d : Int) (hd : 2 ≤ d ∧ d ≤ 3652058)
+    (hlon : -180 ≤ obs.lon ∧ obs.lon ≤ 180) (B : ℝ)
+    (hB : |eqOfTime (julianDayToCentury (α := ℝ) (julianDayDate d))| ≤ B) (hB30 : B ≤ 30) :
     ∃ S : Int, noonUtc obs d = .ok (dateStart d + S * usPerSec)
-      ∧ |(S : ℝ) - (43200 - 240 * obs.lon)| ≤ 1123 := by
-  have hc := century_of_date d hd
-  have he := abs_le.mp (eqOfTime_bound _ hc)
+      ∧ |(S : ℝ) - (43200 - 240 * obs.lon)| ≤ 60 * B + 1 := by
+  have he := abs_le.mp hB
   have hx : noonHours obs.lon d
       = (720 - 4 * obs.lon - eqOfTime (julianDayToCentury (julianDayDate d))) / 60 := by
     unfold noonHours; norm_num
@@ -128,13 +129,60 @@ theorem noonUtc_value (obs : Obs ℝ) (d : Int) (hd : 693596 ≤ d ∧ d ≤ 767
   refine ⟨hmsSeconds (splitHours (noonHours obs.lon d)).1 (splitHours (noonHours obs.lon d)).2.1
       (splitHours (noonHours obs.lon d)).2.2, ?_, ?_⟩
   · unfold noonUtc
-    exact mkNoon_spec d _ _ _ ⟨by omega, by omega⟩ hr ⟨m0, m1⟩ ⟨s0, s1⟩
+    exact mkNoon_spec d _ _ _ hd hr ⟨m0, m1⟩ ⟨s0, s1⟩
   · rw [abs_lt] at hS
     rw [abs_le]
     have e : 3600 * noonHours obs.lon d
         = 43200 - 240 * obs.lon - 60 * eqOfTime (julianDayToCentury (julianDayDate d)) := by
       rw [hx]; ring
     constructor <;> linarith [hS.1, hS.2, he.1, he.2]
+
+/-- the UTC candidate of noon, 1900 … 2100: 12:00 − lon/15 to within 18.7 min + 1 s -/
+theorem noonUtc_value (obs : Obs ℝ) (d : Int) (hd : 693596 ≤ d ∧ d ≤ 767009)
+    (hlon : -180 ≤ obs.lon ∧ obs.lon ≤ 180) :
+    ∃ S : Int, noonUtc obs d = .ok (dateStart d + S * usPerSec)
+      ∧ |(S : ℝ) - (43200 - 240 * obs.lon)| ≤ 1123 := by
+  obtain ⟨S, h1, h2⟩ := noonUtc_of_eot_bound obs d ⟨by omega, by omega⟩ hlon (187 / 10)
+    (eqOfTime_bound _ (century_of_date d hd)) (by norm_num)
+  exact ⟨S, h1, by linarith⟩
+
+/-- the Julian century of any date of the calendar -/
+theorem century_of_any_date (d : Int) (hd : 1 ≤ d ∧ d ≤ 3652059) :
+    |julianDayToCentury (α := ℝ) (julianDayDate d)| ≤ 81 := by
+  rw [C15Date.jd_date d (by omega)]
+  unfold julianDayToCentury
+  have h1 : (1 : ℝ) ≤ (d : ℝ) := by exact_mod_cast hd.1
+  have h2 : (d : ℝ) ≤ 3652059 := by exact_mod_cast hd.2
+  rw [abs_le]
+  constructor
+  · rw [le_div_iff₀ (by norm_num)]; norm_num; linarith
+  · rw [div_le_iff₀ (by norm_num)]; norm_num; linarith
+
+/-- **C20 totality of the noon computation**: for every date 0001-01-02 … 9999-12-30 and every
+    longitude the UTC candidate of noon is constructed without error -/
+theorem noonUtc_total (obs : Obs ℝ) (d : Int) (hd : 2 ≤ d ∧ d ≤ 3652058)
+    (hlon : -180 ≤ obs.lon ∧ obs.lon ≤ 180) : ∃ c, noonUtc obs d = .ok c := by
+  obtain ⟨S, h1, _⟩ := noonUtc_of_eot_bound obs d hd hlon (45 / 2)
+    (eqOfTime_bound_wide _ (century_of_any_date d ⟨by omega, by omega⟩)) (by norm_num)
+  exact ⟨_, h1⟩
+
+/-- … and so is `noon` itself, in every zone, for every date 0001-01-03 … 9999-12-29 -/
+theorem noon_total (obs : Obs ℝ) (d : Int) (tz : TZ) (hd : 3 ≤ d ∧ d ≤ 3652057)
+    (hlon : -180 ≤ obs.lon ∧ obs.lon ≤ 180) : ∃ t, noon obs d tz = .ok t := by
+  obtain ⟨c, hc⟩ := noonUtc_total obs d ⟨by omega, by omega⟩ hlon
+  obtain ⟨cn, hcn⟩ := noonUtc_total obs (d + 1) ⟨by omega, by omega⟩ hlon
+  obtain ⟨cp, hcp⟩ := noonUtc_total obs (d + -1) ⟨by omega, by omega⟩ hlon
+  unfold noon
+  rw [hc]
+  simp only [bind, Except.bind]
+  split_ifs with h1 h2
+  · exact ⟨c, rfl⟩
+  · have : dateAdd? d 1 = .ok (d + 1) := by
+      unfold dateAdd? minOrdinal maxOrdinal; simp only; rw [if_pos (by omega)]
+    rw [this]; exact ⟨cn, hcn⟩
+  · have : dateAdd? d (-1) = .ok (d + -1) := by
+      unfold dateAdd? minOrdinal maxOrdinal; simp only; rw [if_pos (by omega)]
+    rw [this]; exact ⟨cp, hcp⟩
 
 /-- **C05: noon falls on the requested date** in every zone whose clock is within six hours of
     the place's mean solar time (offset in µs against 240 s per degree of longitude) -/
@@ -163,10 +211,9 @@ theorem noon_on_requested_date (obs : Obs ℝ) (d : Int) (tz : TZ) (t : Int)
 /-! ### Midnight -/
 
 /-- the Julian century `midnight` evaluates the equation of time at -/
-theorem century_of_midnight (d : Int) (lon : ℝ) (hd : 693596 ≤ d ∧ d ≤ 767009)
-    (hlon : -180 ≤ lon ∧ lon ≤ 180) :
-    |julianDayToCentury (α := ℝ) (julianDayWall (dateStart d + 12 * usPerHour) + 0.5 + -lon / 360.0)|
-      ≤ 101 / 100 := by
+theorem midnight_century_eq (d : Int) (lon : ℝ) (hd : 1 ≤ d) :
+    julianDayToCentury (α := ℝ) (julianDayWall (dateStart d + 12 * usPerHour) + 0.5 + -lon / 360.0)
+      = ((d : ℝ) + 1721424.5 + 43200 / 86400 + 0.5 + -lon / 360.0 - 2451545.0) / 36525.0 := by
   have hw : usPerDay ≤ dateStart d + 12 * usPerHour := by
     unfold dateStart usPerDay usPerHour; omega
   rw [C15Date.jd_wall _ hw]
@@ -176,21 +223,41 @@ theorem century_of_midnight (d : Int) (lon : ℝ) (hd : 693596 ≤ d ∧ d ≤ 7
     unfold dateStart usPerDay usPerHour usPerSec; omega
   rw [e1, e2]
   unfold julianDayToCentury
+  push_cast
+  rfl
+
+theorem century_of_midnight (d : Int) (lon : ℝ) (hd : 693596 ≤ d ∧ d ≤ 767009)
+    (hlon : -180 ≤ lon ∧ lon ≤ 180) :
+    |julianDayToCentury (α := ℝ) (julianDayWall (dateStart d + 12 * usPerHour) + 0.5 + -lon / 360.0)|
+      ≤ 101 / 100 := by
+  rw [midnight_century_eq d lon (by omega)]
   have h1 : (693596 : ℝ) ≤ (d : ℝ) := by exact_mod_cast hd.1
   have h2 : (d : ℝ) ≤ 767009 := by exact_mod_cast hd.2
   rw [abs_le]
   constructor
-  · rw [le_div_iff₀ (by norm_num)]; push_cast; norm_num; linarith [hlon.1, hlon.2]
-  · rw [div_le_iff₀ (by norm_num)]; push_cast; norm_num; linarith [hlon.1, hlon.2]
+  · rw [le_div_iff₀ (by norm_num)]; norm_num; linarith [hlon.1, hlon.2]
+  · rw [div_le_iff₀ (by norm_num)]; norm_num; linarith [hlon.1, hlon.2]
 
-/-- the UTC candidate of midnight: 00:00 UTC of the date minus lon/15 hours, to within
-    18.7 min + 1 s -/
-theorem midnightUtc_value (obs : Obs ℝ) (d : Int) (hd : 693596 ≤ d ∧ d ≤ 767009)
-    (hlon : -180 ≤ obs.lon ∧ obs.lon ≤ 180) :
+theorem century_of_any_midnight (d : Int) (lon : ℝ) (hd : 1 ≤ d ∧ d ≤ 3652059)
+    (hlon : -180 ≤ lon ∧ lon ≤ 180) :
+    |julianDayToCentury (α := ℝ) (julianDayWall (dateStart d + 12 * usPerHour) + 0.5 + -lon / 360.0)|
+      ≤ 81 := by
+  rw [midnight_century_eq d lon (by omega)]
+  have h1 : (1 : ℝ) ≤ (d : ℝ) := by exact_mod_cast hd.1
+  have h2 : (d : ℝ) ≤ 3652059 := by exact_mod_cast hd.2
+  rw [abs_le]
+  constructor
+  · rw [le_div_iff₀ (by norm_num)]; norm_num; linarith [hlon.1, hlon.2]
+  · rw [div_le_iff₀ (by norm_num)]; norm_num; linarith [hlon.1, hlon.2]
+
+/-- the UTC candidate of midnight under any bound `B ≤ 30` min on the equation of time -/
+theorem midnightUtc_of_eot_bound (obs : Obs ℝ) (d : Int) (hd : 2 ≤ d ∧ d ≤ 3652058)
+    (hlon : -180 ≤ obs.lon ∧ obs.lon ≤ 180) (B : ℝ)
+    (hB : |eqOfTime (julianDayToCentury (α := ℝ)
+      (julianDayWall (dateStart d + 12 * usPerHour) + 0.5 + -obs.lon / 360.0))| ≤ B) (hB30 : B ≤ 30) :
     ∃ S : Int, midnightUtc obs d = .ok (dateStart d + S * usPerSec)
-      ∧ |(S : ℝ) - (-240 * obs.lon)| ≤ 1123 := by
-  have hc := century_of_midnight d obs.lon hd hlon
-  have he := abs_le.mp (eqOfTime_bound _ hc)
+      ∧ |(S : ℝ) - (-240 * obs.lon)| ≤ 60 * B + 1 := by
+  have he := abs_le.mp hB
   set eq := eqOfTime (julianDayToCentury (α := ℝ)
     (julianDayWall (dateStart d + 12 * usPerHour) + 0.5 + -obs.lon / 360.0)) with heq
   have hx : midnightHours obs.lon d = (-obs.lon * 4 - eq) / 60 := by
@@ -214,11 +281,45 @@ theorem midnightUtc_value (obs : Obs ℝ) (d : Int) (hd : 693596 ≤ d ∧ d ≤
   refine ⟨hmsSeconds (splitHours (midnightHours obs.lon d)).1 (splitHours (midnightHours obs.lon d)).2.1
       (splitHours (midnightHours obs.lon d)).2.2, ?_, ?_⟩
   · unfold midnightUtc
-    exact mkMidnight_spec d _ _ _ ⟨by omega, by omega⟩ hr ⟨m0, m1⟩ ⟨s0, s1⟩
+    exact mkMidnight_spec d _ _ _ hd hr ⟨m0, m1⟩ ⟨s0, s1⟩
   · rw [abs_lt] at hS
     rw [abs_le]
     have e : 3600 * midnightHours obs.lon d = -240 * obs.lon - 60 * eq := by rw [hx]; ring
     constructor <;> linarith [hS.1, hS.2, he.1, he.2]
+
+/-- the UTC candidate of midnight, 1900 … 2100: 00:00 UTC of the date minus lon/15 hours, to
+    within 18.7 min + 1 s -/
+theorem midnightUtc_value (obs : Obs ℝ) (d : Int) (hd : 693596 ≤ d ∧ d ≤ 767009)
+    (hlon : -180 ≤ obs.lon ∧ obs.lon ≤ 180) :
+    ∃ S : Int, midnightUtc obs d = .ok (dateStart d + S * usPerSec)
+      ∧ |(S : ℝ) - (-240 * obs.lon)| ≤ 1123 := by
+  obtain ⟨S, h1, h2⟩ := midnightUtc_of_eot_bound obs d ⟨by omega, by omega⟩ hlon (187 / 10)
+    (eqOfTime_bound _ (century_of_midnight d obs.lon hd hlon)) (by norm_num)
+  exact ⟨S, h1, by linarith⟩
+
+/-- **C20 totality of midnight**: for every date 0001-01-03 … 9999-12-29, every longitude and
+    every zone, `midnight` returns an instant -/
+theorem midnight_total (obs : Obs ℝ) (d : Int) (tz : TZ) (hd : 3 ≤ d ∧ d ≤ 3652057)
+    (hlon : -180 ≤ obs.lon ∧ obs.lon ≤ 180) : ∃ t, midnight obs d tz = .ok t := by
+  have tot : ∀ k, 2 ≤ k ∧ k ≤ 3652058 → ∃ c, midnightUtc obs k = .ok c := by
+    intro k hk
+    obtain ⟨S, h1, _⟩ := midnightUtc_of_eot_bound obs k hk hlon (45 / 2)
+      (eqOfTime_bound_wide _ (century_of_any_midnight k obs.lon ⟨by omega, by omega⟩ hlon)) (by norm_num)
+    exact ⟨_, h1⟩
+  obtain ⟨c, hc⟩ := tot d ⟨by omega, by omega⟩
+  obtain ⟨cn, hcn⟩ := tot (d + 1) ⟨by omega, by omega⟩
+  obtain ⟨cp, hcp⟩ := tot (d + -1) ⟨by omega, by omega⟩
+  unfold midnight
+  rw [hc]
+  simp only [bind, Except.bind]
+  split_ifs with h1 h2
+  · have : dateAdd? d (-1) = .ok (d + -1) := by
+      unfold dateAdd? minOrdinal maxOrdinal; simp only; rw [if_pos (by omega)]
+    rw [this]; exact ⟨cp, hcp⟩
+  · have : dateAdd? d 1 = .ok (d + 1) := by
+      unfold dateAdd? minOrdinal maxOrdinal; simp only; rw [if_pos (by omega)]
+    rw [this]; exact ⟨cn, hcn⟩
+  · exact ⟨c, rfl⟩
 
 /-- **C05: midnight is the solar midnight nearest to 00:00 of the requested date in the requested
     zone** — unconditionally within 12 h 37 min 26 s of it, for every longitude, every date of
